@@ -21,6 +21,10 @@ def run_one(mod, prop, item):
     """run one instance in this process; exceptions of the real code become verdicts"""
     from rv.sx2smt import Unsupported, HarnessError, RockitRaised, DimMismatch
     t0 = time.time()
+    decoy = None
+    if os.environ.get('RV_NO_DECOY') != '1':
+        from rv.decoy import run_decoy
+        decoy = run_decoy(item)
     try:
         res = mod.run(item)
     except DimMismatch as e:
@@ -48,6 +52,7 @@ def run_one(mod, prop, item):
     res.setdefault('status', 'ok')
     res['wall_s'] = time.time() - t0
     res['id'] = item['id']
+    res['decoy'] = decoy
     if item.get('soft'):
         res['soft'] = True
     return res
@@ -194,6 +199,7 @@ def finish(prop, tier, seed, level, results, meta, t_start):
         'sx_instructions_translated': instr,
         'instances_by_status': counts,
         'twins_detected': twins_ok,
+        'decoy_prelude': 'before each instance three unrelated small OCPs (other collocation scheme of the same degree, other N/M/integrator) are transcribed in the same process: state carried over between independent OCPs would change the instance; instances with a complete prelude: %d' % sum(1 for r in results if isinstance(r.get('decoy'), list) and not any(str(x).startswith('failed') for x in r['decoy'])),
         'instances_rejected_by_rockit_with_an_exception': len(rejected_by_rockit),
         'rejected_examples': rejected_by_rockit[:12],
         'twins_missed': twins_bad,
